@@ -1066,6 +1066,12 @@ namespace sim
 		aux::pcap* get_pcap() const { return m_pcap.get(); }
 		void log_pcap(char const* filename);
 
+#ifdef LIBSIMULATOR_VERIF
+		// verification hook: when set, run() executes ready handlers one at a
+		// time and calls this after each one
+		std::function<void()> verif_step_hook;
+#endif
+
 	private:
 		struct timer_compare
 		{
